@@ -154,7 +154,8 @@ Definition level_range (l : levels) : option (Z * Z) :=
 Definition rint (n d : Z) : Z :=
   let f := n / d in let r := n mod d in
   if 2 * r <? d then f else if d <? 2 * r then f + 1 else if Z.even f then f else f + 1.
-Definition clip32 (v : Z) : Z := Z.max gen_i32_min (Z.min gen_i32_max v).
+(* np.clip(., lo, hi) with the bounds of the source: saturation instead of wrap-around *)
+Definition clip32 (v : Z) : Z := Z.max gen_clip_lo (Z.min gen_clip_hi v).
 Definition grid (q : Z * Z) : Z := clip32 (rint (fst q) (snd q)).
 
 Record pt := mkPt { p_x : Z; p_y : Z; p_z : Z; p_tag : Z }.
